@@ -474,4 +474,5 @@ func main() {
 	writeIfChanged(filepath.Join(*out, "Preds.lean"), []byte(p))
 	writeIfChanged(filepath.Join(*out, "Facts.lean"), []byte(f))
 	writeIfChanged(filepath.Join(*out, "hashes.json"), h)
+	genGo2Lean()
 }
